@@ -206,7 +206,7 @@ func (x *instance) internals(rp *replayer, e *obs, where string) {
 // laws checks the settle law on the real outputs wherever the specification says it applies
 func (x *instance) laws(o apiOp, r callResult, e *obs) string {
 	bad := ""
-	if o.Op == "rec" { // always refused (compared as such); the settled outputs must stay
+	if o.Op == "rec" || ((o.Op == "fwd" || o.Op == "act") && o.K == 0) { // refused by design (compared as such); the settled outputs must stay
 		r.se, r.fe = "", ""
 	}
 	if e.Sset {
